@@ -216,6 +216,76 @@ func escapeSweep(thorough bool) []escCase {
 	return out
 }
 
+// followerSweep: every kind of escape directly followed by a literal character, for every character
+// of a dense range (Latin, Greek, Cyrillic, Armenian, Hebrew, Arabic incl. their digits) and boundary
+// code points (digits of other scripts, characters whose low byte is an ASCII digit or hex letter).
+// The scanners of \0, \N, \xHH, \uHHHH, \u{H}, \cX decide where the escape ends by looking at the
+// next character: the follower must stay a literal of its own.
+func followerSweep(thorough bool) []escCase {
+	top := rune(0x700)
+	if thorough {
+		top = 0x3100
+	}
+	var followers []rune
+	for c := rune(0x20); c < top; c++ {
+		if c < 0x80 && strings.ContainsRune("^$"+bs+".*+?()[]{}|/-", c) {
+			continue
+		}
+		followers = append(followers, c)
+	}
+	followers = append(followers, 0x0966, 0x0e50, 0x1810, 0x2070, 0x2080, 0x2460, 0x3007, 0x4e30, 0x4e31, 0x4e41, 0x4e61, 0xa620, 0xff10, 0xff11, 0xff21, 0xff41, 0x10330, 0x10341, 0x1d7ce, 0x1d7d8, 0x1f600, 0x20030)
+	type esc struct {
+		text  string
+		v     string // what the escape matches on its own
+		digit func(rune) bool
+	}
+	dec := func(c rune) bool { return c >= '0' && c <= '9' }
+	hex := func(c rune) bool { return dec(c) || c >= 'a' && c <= 'f' || c >= 'A' && c <= 'F' }
+	never := func(rune) bool { return false }
+	es := []esc{{bs + "0", "\x00", dec}, {bs + "x41", "A", never}, {bs + "u0041", "A", never}, {bs + "u{41}", "A", never}, {bs + "cA", "\x01", never}, {bs + "t", "\t", never}, {bs + "/", "/", never}, {bs + "x0a", "\n", never}, {bs + "u00e9", cp(0xe9), never}}
+	_ = hex
+	var out []escCase
+	for _, e := range es {
+		var c escCase
+		for _, f := range followers {
+			if e.digit(f) {
+				continue // \0 before a decimal digit is not in the grammar
+			}
+			F := string(f)
+			c.pats = append(c.pats, "^"+e.text+F+"$", "^["+e.text+F+"]$", "^(?:"+e.text+F+"){2}$")
+		}
+		out = append(out, c)
+	}
+	// the same follower behind a back-reference (run by the backtracking engine) and behind a group
+	var br escCase
+	for _, f := range followers {
+		if dec(f) {
+			continue
+		}
+		F := string(f)
+		br.pats = append(br.pats, "^(a|b)"+bs+"1"+F+"$", "^(?<n>a)"+bs+"k<n>"+F+"$", "^(a)"+F+bs+"1$")
+	}
+	out = append(out, br)
+	return out
+}
+
+// followerSubjects: the subjects for one follower pattern are derived from the pattern itself.
+func followerSubjects(p string) []string {
+	// the follower is the last literal before the closing syntax
+	core := strings.TrimSuffix(strings.TrimSuffix(strings.TrimSuffix(strings.TrimSuffix(p, "$"), "]"), "){2}"), bs+"1")
+	var f rune
+	for _, r := range core {
+		f = r
+	}
+	F := string(f)
+	heads := []string{"", "\x00", "A", "\x01", "\t", "/", "\n", cp(0xe9), "a", "aa", "bb", "ab", "a\t", "\x09", "Q", "\x00" + "0"}
+	var subs []string
+	for _, h := range heads {
+		subs = append(subs, h, h+F, h+F+h+F, h+F+F, h+string(f+1), h+string(f&0xff), F+h)
+	}
+	return subs
+}
+
 type kase struct {
 	Pattern   string `json:"pattern"`
 	Subject   string `json:"subject_quoted"`
@@ -439,6 +509,28 @@ func main() {
 	wg.Wait()
 	r.Set("escape_sweep_escapes", len(sweep))
 	r.Set("escape_sweep_patterns", sweepPats)
+	var followerPats int64
+	fjobs := make(chan []string, 64)
+	for w := 0; w < runtime.NumCPU(); w++ {
+		wg.Add(1)
+		go func() {
+			defer wg.Done()
+			for ps := range fjobs {
+				for _, p := range ps {
+					judgePattern(r, p, followerSubjects(p), st)
+					atomic.AddInt64(&followerPats, 1)
+				}
+			}
+		}()
+	}
+	for _, c := range followerSweep(r.Thorough()) {
+		for i := 0; i < len(c.pats); i += 256 {
+			fjobs <- c.pats[i:min(i+256, len(c.pats))]
+		}
+	}
+	close(fjobs)
+	wg.Wait()
+	r.Set("follower_sweep_patterns", followerPats)
 	if done < int64(len(pats)) {
 		r.NotExhaustive(fmt.Sprintf("internal deadline %s reached after %d of %d patterns (shortest first)", budget, done, len(pats)))
 	}
@@ -470,5 +562,5 @@ func main() {
 	}
 	r.Assume("oracle: internal/ecma reference matcher (ECMA-262 pattern semantics over code points, no Annex B); alarm only when regexp2 ECMAScript|Unicode agrees with it against ogen",
 		"patterns outside the portable grammar (reference reports a syntax error: Annex-B-only forms, named groups) are only checked for String()==source and for never running look-around/back-references on RE2")
-	r.Finish(fmt.Sprintf("patterns: level %d = all single terms (%d atoms x %d quantifiers), two-term sequences (quick: 4 quantifiers on the first term, none on the second; thorough: all on the first, 3 on the second), thorough adds three-term sequences and alternations over 21 interaction-heavy atoms; each short pattern also wrapped as ^p$, ^(?:p)$, p|b, (?:p)+, (p)*b. subjects: all strings of <= %d code points over 26 symbols (<= 3 for patterns of <= 6 bytes). Escape sweep: every \\cX (52), \\xHH (all 256, both hex cases), \\uHHHH and \\u{H} for 0..FF and 19 boundary code points up to U+10FFFF, every identity and control escape, each in 10 contexts (alone, in a class, negated, quantified, as both ends of a range, repeated group, mixed class), against every single code point < U+0180 (thorough: < U+3000) and 22 boundary code points, plus all pairs over the neighbours of its value and the characters of its own spelling. One evaluation = (pattern, subject); all distinct; non-trivial = evaluated by both the reference and ogen.", level, len(atomsList()), len(quants), subjLen))
+	r.Finish(fmt.Sprintf("patterns: level %d = all single terms (%d atoms x %d quantifiers), two-term sequences (quick: 4 quantifiers on the first term, none on the second; thorough: all on the first, 3 on the second), thorough adds three-term sequences and alternations over 21 interaction-heavy atoms; each short pattern also wrapped as ^p$, ^(?:p)$, p|b, (?:p)+, (p)*b. subjects: all strings of <= %d code points over 26 symbols (<= 3 for patterns of <= 6 bytes). Escape sweep: every \\cX (52), \\xHH (all 256, both hex cases), \\uHHHH and \\u{H} for 0..FF and 19 boundary code points up to U+10FFFF, every identity and control escape, each in 10 contexts (alone, in a class, negated, quantified, as both ends of a range, repeated group, mixed class), against every single code point < U+0180 (thorough: < U+3000) and 22 boundary code points, plus all pairs over the neighbours of its value and the characters of its own spelling. Follower sweep: nine kinds of escape, a numbered and a named back-reference, each directly followed by every character below U+0700 (thorough: U+3100) and 22 boundary code points (digits of other scripts, characters whose low byte is an ASCII digit or hex letter), alone, in a class and repeated, against subjects built from the escape's value and the follower. One evaluation = (pattern, subject); all distinct; non-trivial = evaluated by both the reference and ogen.", level, len(atomsList()), len(quants), subjLen))
 }
